@@ -242,3 +242,124 @@ Proof.
   - destruct Hne as [Hx _]. specialize (Hx eq_refl). discriminate.
   - destruct Hne as [_ Hx]. specialize (Hx eq_refl). discriminate.
 Qed.
+
+(* ================================================================= 3. read_fields *)
+Section SortBy.
+  Context {A : Type} (key : A -> Z).
+  Definition keyle (a b : A) : Prop := key a <= key b.
+
+  Lemma insert_by_perm x l : Permutation (insert_by key x l) (x :: l).
+  Proof.
+    induction l as [|y t IH]; cbn; [reflexivity|].
+    destruct (key x <=? key y); [reflexivity|].
+    rewrite IH. apply perm_swap.
+  Qed.
+
+  Lemma sort_by_perm l : Permutation (sort_by key l) l.
+  Proof.
+    induction l as [|x t IH]; cbn; [reflexivity|].
+    unfold sort_by in *. cbn. rewrite insert_by_perm. now constructor.
+  Qed.
+
+  Lemma insert_by_sorted x l : StronglySorted keyle l -> StronglySorted keyle (insert_by key x l).
+  Proof.
+    induction 1 as [|y t Ht IH Hy]; cbn; [repeat constructor|].
+    destruct (key x <=? key y) eqn:E.
+    - constructor; [now constructor|]. constructor; [unfold keyle; lia|].
+      rewrite Forall_forall in *. intros z Hz. specialize (Hy z Hz). unfold keyle in *. lia.
+    - constructor; [exact IH|]. rewrite Forall_forall in *. intros z Hz.
+      apply (Permutation_in _ (insert_by_perm x t)) in Hz. destruct Hz as [<-|Hz]; [unfold keyle; lia|now apply Hy].
+  Qed.
+
+  Lemma sort_by_sorted l : StronglySorted keyle (sort_by key l).
+  Proof.
+    induction l as [|x t IH]; [constructor|]. unfold sort_by in *. cbn. now apply insert_by_sorted.
+  Qed.
+End SortBy.
+
+Lemma sort_uniq_sorted l : StronglySorted Z.lt l -> sort_uniq l = l.
+Proof.
+  induction 1 as [|x t Ht IH Hx]; [reflexivity|].
+  unfold sort_uniq in *. cbn. rewrite IH. destruct t as [|y t']; [reflexivity|].
+  cbn. apply Forall_inv in Hx. destruct (x <? y) eqn:E; [reflexivity|lia].
+Qed.
+
+Lemma ssorted_le_nodup_lt l : StronglySorted Z.le l -> NoDup l -> StronglySorted Z.lt l.
+Proof.
+  induction 1 as [|x t Ht IH Hx]; intro Hn; [constructor|].
+  apply NoDup_cons_iff in Hn as [Hnx Hn]. constructor; [now apply IH|].
+  rewrite Forall_forall in *. intros y Hy. specialize (Hx y Hy).
+  assert (x <> y) by (intros ->; contradiction). lia.
+Qed.
+
+Lemma map_keyle_sorted {A} (key : A -> Z) l : StronglySorted (keyle key) l -> StronglySorted Z.le (map key l).
+Proof.
+  induction 1 as [|x t Ht IH Hx]; cbn; constructor; [assumption|].
+  rewrite Forall_forall in *. intros y Hy. apply in_map_iff in Hy as (z & <- & Hz). now apply Hx.
+Qed.
+
+Lemma assoc_map_self {B} (g : string -> B) l n :
+  In n l -> assoc n (map (fun m => (m, g m)) l) = Some (g n).
+Proof.
+  induction l as [|m t IH]; intro Hin; [contradiction|]. cbn.
+  destruct (String.eqb n m) eqn:E.
+  - apply String.eqb_eq in E. now subst.
+  - destruct Hin as [->|Hin]; [now rewrite String.eqb_refl in E|now apply IH].
+Qed.
+
+(** pandas gives every name the column whose number is its own, whenever the names are handed over
+    sorted by their (pairwise distinct) numbers *)
+Lemma pandas_read_row_sorted (num : string -> Z) names rec :
+  StronglySorted Z.lt (map num names) ->
+  (forall n, In n names -> 0 <= num n < Z.of_nat (length rec)) ->
+  pandas_read_row (map num names) names rec
+  = Some (map (fun n => (n, nth (Z.to_nat (num n)) rec EmptyString)) names).
+Proof.
+  intros Hs Hr. unfold pandas_read_row. rewrite (sort_uniq_sorted _ Hs), map_length, Nat.eqb_refl.
+  clear Hs. induction names as [|n t IH]; [reflexivity|]. cbn.
+  assert (Hn : 0 <= num n < Z.of_nat (length rec)) by (apply Hr; now left).
+  rewrite (nth_error_nth' rec EmptyString) by lia. cbn.
+  rewrite IH; [reflexivity|]. intros m Hm. apply Hr. now right.
+Qed.
+
+(** read_fields_spec: for ANY injective assignment of column numbers (ascending or not, with gaps), every declared
+    field receives the text of its own column *)
+Theorem read_fields_spec names nums rec :
+  NoDup (map (num_of nums) names) ->
+  (forall n, In n names -> 0 <= num_of nums n < Z.of_nat (length rec)) ->
+  exists r, read_fields names nums rec = Some r /\
+            Permutation (map fst r) names /\
+            forall n, In n names -> assoc n r = Some (nth (Z.to_nat (num_of nums n)) rec EmptyString).
+Proof.
+  intros Hinj Hr. set (num := num_of nums) in *. set (names' := sort_by num names).
+  assert (Hp : Permutation names' names) by apply sort_by_perm.
+  assert (Hs : StronglySorted Z.lt (map num names')).
+  { apply ssorted_le_nodup_lt; [apply map_keyle_sorted, sort_by_sorted|].
+    apply (Permutation_NoDup (l := map num names)); [|assumption]. apply Permutation_map. now symmetry. }
+  exists (map (fun n => (n, nth (Z.to_nat (num n)) rec EmptyString)) names').
+  split; [|split].
+  - unfold read_fields. fold num. fold names'. apply pandas_read_row_sorted; [assumption|].
+    intros n Hn. apply Hr. now apply (Permutation_in _ Hp).
+  - rewrite map_map. cbn. now rewrite map_id.
+  - intros n Hn. apply (assoc_map_self (fun m => nth (Z.to_nat (num m)) rec EmptyString)).
+    apply (Permutation_in _ (Permutation_sym Hp)). assumption.
+Qed.
+
+(** the code before fix D8 handed the names over in declaration order: with a non-ascending assignment the fields are swapped *)
+Lemma read_fields_old_refuted :
+  exists names nums rec n,
+    In n names /\ NoDup (map (num_of nums) names) /\
+    exists r, read_fields_old names nums rec = Some r /\
+              assoc n r <> Some (nth (Z.to_nat (num_of nums n)) rec EmptyString).
+Proof.
+  exists ["foo"; "count"]%string, [("foo", 4); ("count", 2)]%string, ["0"; "1"; "7"; "x"; "9"]%string, "count"%string.
+  split; [now right; left|]. split.
+  - cbn. repeat constructor; cbn; intuition discriminate.
+  - eexists. split; [vm_compute; reflexivity|]. vm_compute. discriminate.
+Qed.
+
+(* ================================================================= 4. numbers as text *)
+Lemma parse_print_Z z : parse_Z (print_Z z) = Some z.
+Proof.
+  unfold parse_Z, print_Z. rewrite NilEmpty.isi. cbn. now rewrite DecimalZ.of_to.
+Qed.
